@@ -192,6 +192,10 @@ SeqRecord(c) == LET v1 == CallFn(c.c1.f, c.r, c.c1.a)  v2 == CallFn(c.c2.f, c.r,
                 [src |-> IF c.loopvar THEN "@each(r in [" \o LitV(c.r) \o "])" \o body \o "@end" ELSE "{{ r = " \o LitV(c.r) \o " }}" \o body, data |-> <<>>,
                  expect |-> IF good THEN [kind |-> "out", out |-> ShowB(v1) \o "|" \o ShowB(v2) \o "|" \o ShowB(v1) \o "|" \o ShowB(c.r)] ELSE [kind |-> "any"],
                  tags |-> <<"c11", "seqcalls", c.r.t, c.c1.f, c.c2.f>>]
+\* contains is structural equality at every depth (lists in lists, objects in lists)
+DeepContains == {[r |-> r, f |-> "contains", a |-> <<x>>] :
+                   r \in {A(<<A(<<A(<<I(1)>>)>>), I(3)>>), A(<<A(<<I(1), A(<<I(2)>>)>>), A(<<>>)>>), A(<<O(<<[pk |-> "k", pv |-> A(<<I(1)>>)]>>), A(<<O(<<>>)>>)>>)},
+                   x \in {A(<<A(<<I(1)>>)>>), A(<<I(1), A(<<I(2)>>)>>), A(<<>>), A(<<A(<<I(2)>>)>>), O(<<[pk |-> "k", pv |-> A(<<I(1)>>)]>>), A(<<O(<<>>)>>), I(3)}}
 Cases == CASE Family = "twice" -> TwiceCases
            [] Family = "seqcalls" -> SeqCases
            [] Family = "argvars" -> ArgVarCases
@@ -201,7 +205,7 @@ Cases == CASE Family = "twice" -> TwiceCases
            [] Family = "str3" -> StrCases(3) \cup ContainsCases(3, 2) \cup DecCases \cup MixedCases
            [] Family = "arr2" -> ArrCases(2) \cup SliceCases
            [] Family = "arr3" -> ArrCases(3) \cup SliceCases
-           [] Family = "num" -> NumCases \cup WrongCases
+           [] Family = "num" -> NumCases \cup WrongCases \cup DeepContains
 
 \* all orderings of a short sequence (shuffle)
 RECURSIVE Perms(_)
